@@ -19,15 +19,28 @@ import random
 import time as _time
 import uuid as _uuid
 
-os.environ.setdefault("TZ", "UTC")
+os.environ["TZ"] = os.environ.get("VERIF_TZ", "UTC")
 try:
     _time.tzset()
 except AttributeError:  # pragma: no cover
     pass
 
 _REAL_DATETIME = _dt.datetime
-BASE = _REAL_DATETIME(2026, 3, 1, 12, 0, 0)          # virtual epoch (naive, TZ=UTC)
+BASE = _REAL_DATETIME(2026, 3, 1, 12, 0, 0)          # virtual epoch: the UTC wall clock at model time 0
 BASE_UNIX_US = int((BASE - _REAL_DATETIME(1970, 1, 1)).total_seconds()) * 1_000_000
+# Local time zone of the process under test.  Naive datetimes in repid are LOCAL wall-clock times (`datetime.now()`); the
+# harness runs under UTC by default and, for one round of the thorough tier, under a zone away from UTC (`set_tz`), so that a
+# naive value taken for a UTC one (or the reverse) shows.
+LOCAL_OFFSET = _dt.timedelta(0)
+
+
+def set_tz(posix_tz: str) -> None:
+    """e.g. "UTC", "XXX+5" (five hours west of UTC), "XXX-5:30" (five and a half hours east)"""
+    global LOCAL_OFFSET
+    os.environ["TZ"] = posix_tz
+    _time.tzset()
+    lt = _time.localtime(86400 * 365)
+    LOCAL_OFFSET = _dt.timedelta(seconds=lt.tm_gmtoff)
 
 
 class Clock:
@@ -48,7 +61,7 @@ class Clock:
             self.us = us
 
     def now(self) -> _dt.datetime:
-        return VDateTime._from_real(BASE + _dt.timedelta(microseconds=self.us))
+        return VDateTime._from_real(BASE + _dt.timedelta(microseconds=self.us) + LOCAL_OFFSET)
 
     def unix_us(self) -> int:
         return BASE_UNIX_US + self.us
@@ -68,11 +81,13 @@ class VDateTime(_REAL_DATETIME):
         d = BASE + _dt.timedelta(microseconds=CLOCK.us)
         if tz is not None:
             d = d.replace(tzinfo=_dt.timezone.utc).astimezone(tz)
+        else:
+            d = d + LOCAL_OFFSET          # a naive now() is the local wall clock
         return cls._from_real(d)
 
     @classmethod
     def utcnow(cls):  # noqa: D102
-        return cls.now()
+        return cls._from_real(BASE + _dt.timedelta(microseconds=CLOCK.us))
 
     @classmethod
     def today(cls):  # noqa: D102
@@ -95,10 +110,18 @@ def install(seed: int = 0) -> None:
     _installed = True
 
 
+if os.environ.get("VERIF_TZ"):
+    set_tz(os.environ["VERIF_TZ"])
+
+
 def to_us(d: _dt.datetime | None) -> int | None:
     """datetime -> µs since BASE (model time)."""
     if d is None:
         return None
+    if d.tzinfo is not None:
+        d = d.astimezone(_dt.timezone.utc).replace(tzinfo=None)
+    else:
+        d = d - LOCAL_OFFSET
     delta = d - BASE
     return (delta.days * 86400 + delta.seconds) * 1_000_000 + delta.microseconds
 
@@ -106,7 +129,7 @@ def to_us(d: _dt.datetime | None) -> int | None:
 def from_us(us: int | None):
     if us is None:
         return None
-    return VDateTime._from_real(BASE + _dt.timedelta(microseconds=us))
+    return VDateTime._from_real(BASE + _dt.timedelta(microseconds=us) + LOCAL_OFFSET)
 
 
 def td_us(td: _dt.timedelta | None) -> int | None:
